@@ -1243,3 +1243,426 @@ Section ChanMap.
     rewrite Forall_forall in Hv. apply Hv. eapply Permutation_in; [apply isort_perm|exact Hr].
   Qed.
 End ChanMap.
+
+(* ================================================================== *)
+(* Round 2: index_within_clusters, template ranges, loader selection   *)
+(* ================================================================== *)
+Lemma ssorted_lt_unique a b : StronglySorted Z.lt a -> StronglySorted Z.lt b ->
+  (forall x, In x a <-> In x b) -> a = b.
+Proof.
+  intros Ha. revert b. induction Ha as [|x a Ha IH Hx]; intros b Hb H.
+  - destruct b as [|y b]; [reflexivity|]. exfalso. apply (H y). now left.
+  - destruct b as [|y b]; [exfalso; apply (H x); now left|].
+    inversion Hb as [|? ? Hb' Hy]; subst. rewrite Forall_forall in Hx, Hy.
+    assert (x = y).
+    { destruct (proj1 (H x) (or_introl eq_refl)) as [->|Hxb]; [reflexivity|].
+      destruct (proj2 (H y) (or_introl eq_refl)) as [->|Hya]; [reflexivity|].
+      specialize (Hx _ Hya). specialize (Hy _ Hxb). lia. }
+    subst y. f_equal. apply IH; [exact Hb'|]. intros z. split; intros Hz.
+    + destruct (proj1 (H z) (or_intror Hz)) as [->|]; [|assumption]. specialize (Hx _ Hz). lia.
+    + destruct (proj2 (H z) (or_intror Hz)) as [->|]; [|assumption]. specialize (Hy _ Hz). lia.
+Qed.
+
+Lemma zunique_ssorted l : StronglySorted Z.lt (zunique l).
+Proof.
+  unfold zunique. apply sorted_le_nodup_lt; [apply zsort_sorted|].
+  eapply Permutation_NoDup; [symmetry; apply isort_perm|apply NoDup_nodup].
+Qed.
+
+Lemma zunique_in l x : In x (zunique l) <-> In x l.
+Proof.
+  unfold zunique. split; intros H.
+  - apply (nodup_In Z.eq_dec). eapply Permutation_in; [apply isort_perm|exact H].
+  - eapply Permutation_in; [symmetry; apply isort_perm|]. now apply nodup_In.
+Qed.
+
+(* run heads of an ascending list *)
+Fixpoint heads (prev : Z) (l : list Z) : list Z :=
+  match l with
+  | [] => []
+  | x :: t => if x =? prev then heads prev t else x :: heads x t
+  end.
+
+Lemma heads_spec l : StronglySorted Z.le l -> forall prev, Forall (fun y => prev <= y) l ->
+  StronglySorted Z.lt (heads prev l) /\ Forall (fun y => prev < y) (heads prev l) /\
+  forall y, In y (heads prev l) <-> In y l /\ y <> prev.
+Proof.
+  induction 1 as [|x t Hs IH Hx]; intros prev Hp; cbn.
+  - split; [constructor|]. split; [constructor|]. intros y. tauto.
+  - inversion Hp as [|? ? Hpx Hpt]; subst. destruct (x =? prev) eqn:E.
+    + apply Z.eqb_eq in E. subst x. destruct (IH prev Hpt) as (A & B & C).
+      split; [exact A|]. split; [exact B|]. intros y. rewrite C. cbn [In]. split.
+      * intros [Hy Hne]. split; [now right|exact Hne].
+      * intros [[<-|Hy] Hne]; [congruence|split; assumption].
+    + apply Z.eqb_neq in E. destruct (IH x Hx) as (A & B & C).
+      split; [constructor; assumption|]. split.
+      * constructor; [lia|]. eapply Forall_impl; [|exact B]. cbn. lia.
+      * intros y. cbn [In]. rewrite C. rewrite Forall_forall in Hx. split.
+        -- intros [<-|[Hy Hne]]; [split; [now left|lia]|]. specialize (Hx _ Hy). split; [now right|lia].
+        -- intros [[<-|Hy] Hne]; [now left|]. destruct (Z.eq_dec x y); [now left|right; split; auto].
+Qed.
+
+Lemma zunique_heads c0 t : StronglySorted Z.le (c0 :: t) -> zunique (c0 :: t) = c0 :: heads c0 t.
+Proof.
+  intros Hs. inversion Hs as [|? ? Ht Hc]; subst.
+  destruct (heads_spec t Ht c0 Hc) as (A & B & C).
+  apply ssorted_lt_unique; [apply zunique_ssorted|constructor; assumption|].
+  intros y. rewrite zunique_in. cbn [In]. rewrite C.
+  destruct (Z.eq_dec c0 y); intuition.
+Qed.
+
+Lemma StronglySorted_app_r {A} (R : A -> A -> Prop) a b : StronglySorted R (a ++ b) -> StronglySorted R b.
+Proof. induction a as [|x a IH]; cbn; intros H; [exact H|]. inversion H; auto. Qed.
+
+Lemma count_if_zero c l : Forall (fun y => y <> c) l -> count_if (fun x => x =? c) l = 0.
+Proof.
+  intros H. unfold count_if. rewrite filter_none; [reflexivity|].
+  eapply Forall_impl; [|exact H]. cbn. intros y Hy. now apply Z.eqb_neq.
+Qed.
+
+Lemma removelast_map {A B} (f : A -> B) l : removelast (map f l) = map f (removelast l).
+Proof.
+  induction l as [|x l IH]; [reflexivity|]. cbn [map removelast].
+  destruct l as [|y l]; [reflexivity|]. cbn [map] in *. now rewrite IH.
+Qed.
+
+Lemma cumsum_from_length acc l : length (cumsum_from acc l) = length l.
+Proof. revert acc. induction l as [|x l IH]; intros acc; cbn; [reflexivity|]. now rewrite IH. Qed.
+
+(* iwc_incr only looks at the cluster column *)
+Fixpoint iwc_incr_c (prev : Z) (cs vals : list Z) : option (list Z) :=
+  match cs with
+  | [] => match vals with [] => Some [] | _ => None end
+  | c :: t =>
+      if c =? prev then option_map (cons 1) (iwc_incr_c prev t vals)
+      else match vals with
+           | [] => None
+           | v :: vs => option_map (cons v) (iwc_incr_c c t vs)
+           end
+  end.
+
+Lemma iwc_incr_map prev rows vals : iwc_incr prev rows vals = iwc_incr_c prev (map r_cluster rows) vals.
+Proof.
+  revert prev vals. induction rows as [|r t IH]; intros prev vals; cbn; [reflexivity|].
+  destruct (r_cluster r =? prev); [now rewrite IH|]. destruct vals; [reflexivity|now rewrite IH].
+Qed.
+
+Section Cumsum.
+  Variable cs : list Z.
+  Hypothesis Hcs : StronglySorted Z.le cs.
+  Notation C := (fun p => count_if (fun x => x =? p) cs).
+
+  Lemma iwc_walk rest : forall seen prev acc, cs = seen ++ rest ->
+    Forall (fun y => y <= prev) seen -> Forall (fun y => prev <= y) rest ->
+    acc = count_if (fun x => x =? prev) seen ->
+    exists inc,
+      iwc_incr_c prev rest (map (fun p => - C p + 1) (removelast (prev :: heads prev rest))) = Some inc /\
+      length inc = length rest /\
+      forall j, (j < length rest)%nat ->
+        nth j (cumsum_from acc inc) 0 - 1 = count_if (fun x => x =? nth j rest 0) (seen ++ firstn j rest).
+  Proof using Hcs.
+    induction rest as [|x t IH]; intros seen prev acc Ecs Hseen Hrest Hacc.
+    - exists []. cbn. repeat split. intros j Hj. lia.
+    - pose proof (Forall_inv Hrest) as Hpx. pose proof (Forall_inv_tail Hrest) as Hpt. cbn beta in Hpx.
+      assert (Hsx : StronglySorted Z.le (x :: t)) by (apply (StronglySorted_app_r _ seen); now rewrite <- Ecs).
+      apply StronglySorted_inv in Hsx. destruct Hsx as [Hst Hxt].
+      assert (Ecs' : cs = (seen ++ [x]) ++ t) by (rewrite Ecs, <- app_assoc; reflexivity).
+      cbn [heads iwc_incr_c]. destruct (x =? prev) eqn:E.
+      + apply Z.eqb_eq in E. subst x.
+        destruct (IH (seen ++ [prev]) prev (acc + 1)) as (inc & Hi & Hl & Hn).
+        * exact Ecs'.
+        * rewrite Forall_app. split; [assumption|repeat constructor; lia].
+        * exact Hpt.
+        * rewrite count_if_app, count_if_cons, Z.eqb_refl. cbn. lia.
+        * exists (1 :: inc). rewrite Hi. cbn [option_map length]. repeat split; [now rewrite Hl|].
+          intros [|j] Hj; cbn [cumsum_from nth firstn].
+          -- rewrite app_nil_r. lia.
+          -- rewrite Hn by (cbn in Hj; lia). now rewrite <- app_assoc.
+      + apply Z.eqb_neq in E. assert (Hlt : prev < x) by lia.
+        change (removelast (prev :: x :: heads x t)) with (prev :: removelast (x :: heads x t)).
+        cbn [map].
+        assert (HC : count_if (fun y => y =? prev) cs = acc).
+        { rewrite Ecs, count_if_app, (count_if_zero prev (x :: t)); [lia|].
+          constructor; [lia|]. eapply Forall_impl; [|exact Hxt]. cbn. lia. }
+        assert (Hz : count_if (fun y => y =? x) seen = 0).
+        { apply count_if_zero. eapply Forall_impl; [|exact Hseen]. cbn. lia. }
+        destruct (IH (seen ++ [x]) x 1) as (inc & Hi & Hl & Hn).
+        * exact Ecs'.
+        * rewrite Forall_app. split; [eapply Forall_impl; [|exact Hseen]; cbn; lia|repeat constructor; lia].
+        * exact Hxt.
+        * rewrite count_if_app, count_if_cons, Z.eqb_refl, Hz. cbn. lia.
+        * exists ((- count_if (fun y => y =? prev) cs + 1) :: inc). rewrite Hi. cbn [option_map length].
+          split; [reflexivity|]. split; [now rewrite Hl|].
+          intros [|j] Hj; cbn [cumsum_from nth firstn].
+          -- rewrite app_nil_r, Hz. lia.
+          -- replace (acc + (- count_if (fun y => y =? prev) cs + 1)) with 1 by lia.
+             rewrite Hn by (cbn in Hj; lia). now rewrite <- app_assoc.
+  Qed.
+End Cumsum.
+
+Lemma groups_counts tb : Forall (fun r => 0 <= r_sample r) tb ->
+  map (fun g => - g_count g + 1) (removelast (groups tb)) =
+  map (fun p => - count_if (fun x => x =? p) (map r_cluster tb) + 1) (removelast (zunique (map r_cluster tb))) /\
+  map (fun g => fst (fst (fst g))) (groups tb) = zunique (map r_cluster tb).
+Proof.
+  intros Hs. unfold groups. cbv zeta.
+  rewrite (filter_id (fun r => 0 <=? r_sample r) tb)
+    by (eapply Forall_impl; [|exact Hs]; cbn; intros r Hr; lia).
+  split.
+  - rewrite removelast_map, map_map. apply map_ext. intros u. unfold g_count. cbn [fst snd].
+    unfold zlen at 1. rewrite map_length. now rewrite (count_if_map (fun x => x =? u) r_cluster tb).
+  - rewrite map_map. cbn [fst]. apply map_id.
+Qed.
+
+(* the cumsum trick yields the position of each row inside its cluster *)
+Lemma iwc_spec tb : tb <> [] -> StronglySorted Z.le (map r_cluster tb) ->
+  Forall (fun r => 0 <= r_sample r) tb ->
+  exists l, iwc tb = Some l /\ length l = length tb /\
+    forall j, (j < length tb)%nat ->
+      nth j l 0 = count_if (fun x => x =? r_cluster (nth j tb drow)) (firstn j (map r_cluster tb)).
+Proof.
+  intros Hne Hcs Hs. destruct tb as [|r0 t]; [congruence|].
+  unfold iwc. rewrite iwc_incr_map. destruct (groups_counts (r0 :: t) Hs) as [Hv _]. rewrite Hv.
+  set (cs := map r_cluster (r0 :: t)) in *.
+  assert (Ecs : cs = r_cluster r0 :: map r_cluster t) by reflexivity.
+  assert (Hu : zunique cs = r_cluster r0 :: heads (r_cluster r0) cs).
+  { rewrite Ecs. rewrite zunique_heads by (rewrite <- Ecs; exact Hcs). cbn [heads]. now rewrite Z.eqb_refl. }
+  rewrite Hu.
+  destruct (iwc_walk cs Hcs cs [] (r_cluster r0) 0) as (inc & Hi & Hl & Hn).
+  - reflexivity.
+  - constructor.
+  - rewrite Ecs. constructor; [lia|]. rewrite Ecs in Hcs. now apply StronglySorted_inv in Hcs.
+  - reflexivity.
+  - rewrite Hi. eexists. split; [reflexivity|].
+    assert (Hlen : length cs = S (length t)) by (unfold cs; cbn; now rewrite map_length).
+    split; [rewrite map_length; unfold cumsum; rewrite cumsum_from_length, Hl; exact Hlen|].
+    intros j Hj. cbn [length] in Hj.
+    rewrite (nth_map' (fun x => x - 1) _ j 0 0) by (unfold cumsum; rewrite cumsum_from_length, Hl; lia).
+    unfold cumsum. rewrite Hn by lia. cbn [app]. f_equal.
+    unfold cs. now rewrite (nth_map' r_cluster (r0 :: t) j drow 0) by (cbn [length]; lia).
+Qed.
+
+(* min / max of a non-empty list *)
+Lemma fold_min_spec d l : let m := fold_right Z.min d l in
+  (m = d \/ In m l) /\ m <= d /\ forall w, In w l -> m <= w.
+Proof.
+  cbv zeta. induction l as [|x l IH]; cbn [fold_right In].
+  - split; [now left|]. split; [lia|tauto].
+  - destruct IH as (H1 & H2 & H3). split; [|split; [lia|]].
+    + destruct (Z.min_spec x (fold_right Z.min d l)) as [[_ E]|[_ E]]; rewrite E.
+      * right. now left.
+      * destruct H1 as [H1|H1]; [now left|right; now right].
+    + intros w [<-|Hw]; [lia|]. specialize (H3 w Hw). lia.
+Qed.
+
+Lemma fold_max_spec d l : let m := fold_right Z.max d l in
+  (m = d \/ In m l) /\ d <= m /\ forall w, In w l -> w <= m.
+Proof.
+  cbv zeta. induction l as [|x l IH]; cbn [fold_right In].
+  - split; [now left|]. split; [lia|tauto].
+  - destruct IH as (H1 & H2 & H3). split; [|split; [lia|]].
+    + destruct (Z.max_spec x (fold_right Z.max d l)) as [[_ E]|[_ E]]; rewrite E.
+      * destruct H1 as [H1|H1]; [now left|right; now right].
+      * right. now left.
+    + intros w [<-|Hw]; [lia|]. specialize (H3 w Hw). lia.
+Qed.
+
+(* aggregate_by_clusters on a table sorted by cluster whose waveform_index is the row number:
+   [first_index, last_index] is exactly the set of rows of the cluster *)
+Lemma group_range tb g : StronglySorted Z.le (map r_cluster tb) ->
+  Forall (fun r => 0 <= r_sample r) tb ->
+  (forall k, (k < length tb)%nat -> r_wfi (nth k tb drow) = Z.of_nat k) ->
+  In g (groups tb) ->
+  let u := fst (fst (fst g)) in
+  In u (map r_cluster tb) /\
+  g_count g = count_if (fun x => x =? u) (map r_cluster tb) /\
+  forall k, (k < length tb)%nat ->
+    (g_first g <= Z.of_nat k <= g_last g <-> r_cluster (nth k tb drow) = u).
+Proof.
+  intros Hcs Hs Hw Hg. unfold groups in Hg. cbv zeta in Hg.
+  rewrite (filter_id (fun r => 0 <=? r_sample r) tb) in Hg
+    by (eapply Forall_impl; [|exact Hs]; cbn; intros r Hr; lia).
+  apply in_map_iff in Hg. destruct Hg as [u [<- Hu]]. cbn [fst snd]. unfold g_count, g_first, g_last. cbn [fst snd].
+  apply (proj1 (zunique_in _ _)) in Hu.
+  set (ws := map r_wfi (filter (fun r => r_cluster r =? u) tb)).
+  split; [exact Hu|]. split.
+  { unfold ws, zlen at 1. rewrite map_length. now rewrite (count_if_map (fun x => x =? u) r_cluster tb). }
+  assert (Hws : forall w, In w ws <-> exists k, (k < length tb)%nat /\ w = Z.of_nat k /\ r_cluster (nth k tb drow) = u).
+  { intros w. unfold ws. rewrite in_map_iff. split.
+    - intros [r [<- Hr]]. apply filter_In in Hr. destruct Hr as [Hin Hc]. apply Z.eqb_eq in Hc.
+      destruct (In_nth _ _ drow Hin) as [k [Hk <-]]. exists k. repeat split; auto.
+    - intros [k [Hk [-> Hc]]]. exists (nth k tb drow). split; [now apply Hw|].
+      apply filter_In. split; [now apply nth_In|]. now apply Z.eqb_eq. }
+  assert (Hne : In (hd 0 ws) ws).
+  { apply in_map_iff in Hu. destruct Hu as [r [Hc Hin]].
+    assert (Hin' : In (r_wfi r) ws).
+    { unfold ws. apply in_map. apply filter_In. split; [exact Hin|]. now apply Z.eqb_eq. }
+    destruct ws; [contradiction|now left]. }
+  assert (Hmono : forall a b, (a <= b < length tb)%nat -> r_cluster (nth a tb drow) <= r_cluster (nth b tb drow)).
+  { intros a b Hab. pose proof (sorted_le_nth _ Hcs a b) as H. rewrite map_length in H. specialize (H Hab).
+    now rewrite !(nth_map' r_cluster tb _ drow 0) in H by lia. }
+  destruct (fold_min_spec (hd 0 ws) ws) as (Hmi & _ & Hml).
+  destruct (fold_max_spec (hd 0 ws) ws) as (Hma & _ & Hmu).
+  assert (Hmin : In (fold_right Z.min (hd 0 ws) ws) ws) by (destruct Hmi as [->|]; assumption).
+  assert (Hmax : In (fold_right Z.max (hd 0 ws) ws) ws) by (destruct Hma as [->|]; assumption).
+  intros k Hk. split.
+  - intros [Hlo Hhi].
+    apply Hws in Hmin. destruct Hmin as [a [Ha [Ea Hca]]].
+    apply Hws in Hmax. destruct Hmax as [b [Hb [Eb Hcb]]].
+    rewrite Ea in Hlo. rewrite Eb in Hhi.
+    pose proof (Hmono a k ltac:(lia)). pose proof (Hmono k b ltac:(lia)). lia.
+  - intros Hc. assert (Hin : In (Z.of_nat k) ws) by (apply Hws; exists k; auto).
+    split; [now apply Hml|now apply Hmu].
+Qed.
+
+(* WaveformsLoader.load_waveforms: row selection *)
+Lemma ssorted_map_filter {A} (h : A -> Z) g L : StronglySorted Z.lt (map h L) ->
+  StronglySorted Z.lt (map h (filter g L)).
+Proof.
+  induction L as [|a L IH]; cbn; intros H; [constructor|].
+  apply StronglySorted_inv in H. destruct H as [Hs Hf].
+  destruct (g a); [|now apply IH]. cbn. constructor; [now apply IH|].
+  rewrite Forall_forall in *. intros y Hy. apply Hf.
+  apply in_map_iff in Hy. destruct Hy as [x [<- Hx]]. apply filter_In in Hx. apply in_map. tauto.
+Qed.
+
+Lemma load_rows_spec tb iw labels indices : length iw = length tb ->
+  let labs := match labels with Some l => l | None => map (fun g => fst (fst (fst g))) (groups tb) end in
+  StronglySorted Z.lt (load_rows tb iw labels indices) /\
+  forall k, In k (load_rows tb iw labels indices) <->
+    0 <= k < zlen tb /\ In (r_cluster (znth drow tb k)) labs /\
+    match indices with None => True | Some ix => In (znth 0 iw k) ix end.
+Proof.
+  intros Hl labs. unfold load_rows. fold labs.
+  set (L := combine tb iw).
+  assert (HL : length L = length tb) by (unfold L; rewrite combine_length; lia).
+  replace (combine (zrange (length tb)) L) with (enumerate L) by (unfold enumerate; now rewrite HL).
+  split.
+  - apply ssorted_map_filter. unfold enumerate. rewrite map_fst_combine by now rewrite zrange_length.
+    apply zrange_ssorted.
+  - intros k. rewrite in_map_iff. unfold zlen. rewrite <- HL.
+    assert (Hnth : forall p, (p < length L)%nat -> nth p L (drow, 0) = (nth p tb drow, nth p iw 0)).
+    { intros p Hp. unfold L. apply combine_nth. lia. }
+    assert (Hex : forall c (l : list Z), existsb (Z.eqb c) l = true <-> In c l).
+    { intros c l. rewrite existsb_exists. split; [intros [x [Hx He]]; apply Z.eqb_eq in He; now subst|].
+      intros Hc. exists c. split; [exact Hc|apply Z.eqb_refl]. }
+    split.
+    + intros [[q [r w]] [Hq Hf]]. cbn in Hq. subst q. apply filter_In in Hf. destruct Hf as [Hin Hc].
+      apply (enumerate_in L k (r, w) (drow, 0)) in Hin. destruct Hin as [Hr Hx]. unfold zlen in Hr.
+      rewrite Hnth in Hx by lia. inversion Hx; subst r w.
+      apply andb_true_iff in Hc. destruct Hc as [Hc1 Hc2]. apply Hex in Hc1.
+      split; [exact Hr|]. split; [exact Hc1|]. destruct indices as [ix|]; [now apply Hex in Hc2|exact I].
+    + intros [Hr [Hc1 Hc2]]. exists (k, nth (Z.to_nat k) L (drow, 0)). split; [reflexivity|].
+      apply filter_In. split; [apply enumerate_in_conv; unfold zlen; exact Hr|].
+      rewrite Hnth by lia. apply andb_true_iff. split; [now apply Hex|].
+      destruct indices as [ix|]; [now apply Hex|reflexivity].
+Qed.
+
+Lemma StronglySorted_map {A B} (R : B -> B -> Prop) (f : A -> B) l :
+  StronglySorted (fun a b => R (f a) (f b)) l -> StronglySorted R (map f l).
+Proof.
+  induction 1 as [|x l Hs IH Hx]; cbn; constructor; [exact IH|]. now rewrite Forall_map.
+Qed.
+
+Lemma row_leb_cluster a b : row_leb a b = true -> r_cluster a <= r_cluster b.
+Proof.
+  unfold row_leb. destruct (r_cluster a <? r_cluster b) eqn:E1; [lia|].
+  destruct (r_cluster b <? r_cluster a) eqn:E2; [discriminate|lia].
+Qed.
+
+Section Main2.
+  Variable V : Type.
+  Variable src : Z -> Z -> V.
+  Variable choose : Z -> list Z -> Z -> list Z.
+  Variable P : cfg.
+  Notation sp := (c_spikes P).
+  Hypothesis Hns : 1 <= c_ns P.
+  Hypothesis Hsize : 1 <= c_size P.
+  Hypothesis Hto : 0 <= c_to P <= c_L P.
+  Hypothesis Hts : c_to P <= c_size P \/ nchunks P = 1.
+  Hypothesis Hsorted : StronglySorted Z.le (map sp_sample sp).
+  Hypothesis Hchoose : forall i a k, 0 <= k <= zlen a -> NoDup a ->
+    length (choose i a k) = Z.to_nat k /\ NoDup (choose i a k) /\ incl (choose i a k) a.
+  Hypothesis Hmax : 0 <= c_maxwf P.
+  Hypothesis Hchan : Forall (fun s => 0 <= sp_chan s < zlen (c_geom P)) sp.
+  Set Default Proof Using "Hns Hsize Hto Hts Hsorted Hchoose Hmax Hchan".
+
+  Notation T := (table choose P).
+  Notation ST := (sorted_table choose P).
+
+  Lemma ST_length : length ST = length T.
+  Proof. apply Permutation_length, isort_perm. Qed.
+
+  Lemma ST_clusters_sorted : StronglySorted Z.le (map r_cluster ST).
+  Proof.
+    apply StronglySorted_map. eapply StronglySorted_impl; [|apply isort_sorted].
+    - intros a b _ _. apply row_leb_cluster.
+    - apply row_leb_total.
+    - apply row_leb_trans.
+  Qed.
+
+  Lemma ST_valid : Forall (valid_row P) ST.
+  Proof.
+    pose proof (table_valid choose P Hns Hsize Hto Hts Hsorted Hchoose Hmax Hchan) as Hv.
+    rewrite Forall_forall in *. intros r Hr. apply Hv. eapply Permutation_in; [apply isort_perm|exact Hr].
+  Qed.
+
+  Lemma ST_samples_nonneg : Forall (fun r => 0 <= r_sample r) ST.
+  Proof. eapply Forall_impl; [|apply ST_valid]. intros r [Hv _]. lia. Qed.
+
+  Lemma ST_wfi k : (k < length ST)%nat -> r_wfi (nth k ST drow) = Z.of_nat k.
+  Proof.
+    intros Hk. rewrite ST_length in Hk.
+    exact (sorted_row_wfi choose P Hns Hsize Hto Hts Hsorted Hchoose Hmax Hchan k Hk).
+  Qed.
+
+  Lemma iwc_ST : T <> [] ->
+    exists l, iwc ST = Some l /\ length l = length ST /\
+      forall j, (j < length ST)%nat ->
+        nth j l 0 = count_if (fun x => x =? r_cluster (nth j ST drow)) (firstn j (map r_cluster ST)).
+  Proof.
+    intros Hne. apply iwc_spec; [|apply ST_clusters_sorted|apply ST_samples_nonneg].
+    intros E. apply Hne. apply length_zero_iff_nil. rewrite <- ST_length, E. reflexivity.
+  Qed.
+
+  Lemma groups_ST g : In g (groups ST) ->
+    let u := fst (fst (fst g)) in
+    In u (map r_cluster ST) /\
+    g_count g = count_if (fun x => x =? u) (map r_cluster ST) /\
+    forall k, (k < length ST)%nat ->
+      (g_first g <= Z.of_nat k <= g_last g <-> r_cluster (nth k ST drow) = u).
+  Proof.
+    apply group_range; [apply ST_clusters_sorted|apply ST_samples_nonneg|apply ST_wfi].
+  Qed.
+
+  Lemma groups_ST_clusters : map (fun g => fst (fst (fst g))) (groups ST) = zunique (map r_cluster ST).
+  Proof. apply groups_counts, ST_samples_nonneg. Qed.
+
+  (* the loader gives back, for every selected row, exactly what the four files hold for that row *)
+  Lemma loader_saved mem iw cm labels indices : zlen (c_geom P) <= 32768 ->
+    traces V src choose P = Some mem -> iwc ST = Some iw -> chan_map choose P = Some cm ->
+    load_waveforms V mem ST iw cm labels indices =
+    map (fun k => let row := znth drow ST k in
+                  (Some (window V src P (r_sample row) (r_chan row)), row,
+                   count_if (fun x => x =? r_cluster row) (firstn (Z.to_nat k) (map r_cluster ST)),
+                   znth [] (cidx P) (r_chan row)))
+        (load_rows ST iw labels indices).
+  Proof.
+    intros Hn Hm Hi Hc. unfold load_waveforms.
+    assert (HT : T <> []).
+    { intros E. unfold iwc in Hi. assert (ST = []) as E' by (apply length_zero_iff_nil; now rewrite ST_length, E).
+      rewrite E' in Hi. discriminate. }
+    destruct (iwc_ST HT) as (l & Hl & Hll & Hln). rewrite Hi in Hl. inversion Hl; subst l.
+    rewrite (chan_map_canon choose P Hn (table_valid choose P Hns Hsize Hto Hts Hsorted Hchoose Hmax Hchan)) in Hc.
+    inversion Hc; subst cm. clear Hc Hl.
+    destruct (load_rows_spec ST iw labels indices Hll) as [_ Hsel].
+    apply map_ext_in. intros k Hk. apply Hsel in Hk. destruct Hk as [Hr _]. unfold zlen in Hr.
+    assert (Hkn : (Z.to_nat k < length ST)%nat) by lia. cbv zeta.
+    destruct (traces_row V src choose P Hns Hsize Hto Hts Hsorted Hchoose Hmax Hchan (Z.to_nat k)
+                ltac:(rewrite <- ST_length; exact Hkn)) as (mem' & Hm' & _ & _ & _ & Hrow).
+    rewrite Hm in Hm'. inversion Hm'; subst mem'.
+    unfold znth. rewrite Hrow, Hln by exact Hkn.
+    rewrite (nth_map' _ ST (Z.to_nat k) drow []) by exact Hkn. reflexivity.
+  Qed.
+End Main2.
+Set Default Proof Using "Type".
